@@ -50,7 +50,10 @@ class C20System(BuilderSystem):
     def setup(self, st):
         g = st.g
         g.set_resolution(1.0)
-        g.set_axis(x=1, y=2, z=0, E=0)
+        if getattr(self, "unknown_start", False):
+            g.set_axis(E=0)           # the usual first line of a print: no axis position is known yet
+        else:
+            g.set_axis(x=1, y=2, z=0, E=0)
         st.log = []
         st.hooks = {
             "rec": Hook("rec", st.log),
@@ -63,7 +66,8 @@ class C20System(BuilderSystem):
         st.ctx_hooks = []
         st.e_mode = "absolute"
         st.e_last = 0.0
-        st.machine.feed_words([("G", "92"), ("X", "1"), ("Y", "2"), ("Z", "0"), ("E", "0")])
+        if not getattr(self, "unknown_start", False):
+            st.machine.feed_words([("G", "92"), ("X", "1"), ("Y", "2"), ("Z", "0"), ("E", "0")])
 
     def ops(self, st):
         rel = st.g.distance_mode.is_relative
@@ -85,6 +89,10 @@ class C20System(BuilderSystem):
                 ["set_distance_mode", ["relative"]], ["set_distance_mode", ["absolute"]],
                 ["set_extrusion_mode", ["relative"]], ["set_extrusion_mode", ["absolute"]],
                 ["set_axis", [], {"E": 0}], ["set_axis", [], {"E": 2.5}]]
+        if getattr(self, "unknown_start", False):
+            # calls after which some axis position is unknown to the builder (hooks are handed 0 for such an axis, never None)
+            ops = [o for o in ops if not o[0].startswith("trace.") and o[0] not in ("move_absolute", "rapid_absolute")]
+            ops += [["probe", ["towards"], {"z": -1.0}], ["auto_home", [], {"x": 0}], ["auto_home", [], {}]]
         if len(st.ctx) < 1:
             ops.append(["enter", ["move_hook", "rec"]])
             ops.append(["enter", ["move_hook", "ext1"]])
@@ -129,6 +137,7 @@ class C20System(BuilderSystem):
             st.last_exc, st.last_rejected, st.last_lines = exc, exc is not None, []
             return problems
         pre = {a: m.pos[a] for a in ("X", "Y", "Z")}
+        st.unknown_axes = {a for a in ("X", "Y", "Z") if not m.known[a]}
         exc, chunks = self.apply(st, op)
         nrel0 = dict(m.rel_steps)
         self.feed(st, chunks, problems)
@@ -175,6 +184,14 @@ class C20System(BuilderSystem):
                 o, t = c[1], c[2]
                 bo = [before[a] for a in ("X", "Y", "Z")]
                 bt = [cur[a] for a in ("X", "Y", "Z")]
+                if any(v is None for v in tuple(o) + tuple(t)):
+                    problems.append(("hook-handed-unknown-coordinate", f"{op}: line {block!r}: hook {c[0]} got origin {o} target {t}"))
+                    continue
+                unknown = getattr(st, "unknown_axes", set())
+                if unknown:
+                    # axes the machine position of which is unknown (never set, probed, homed): only numbers are demanded
+                    o = [bo[i] if a in unknown else o[i] for i, a in enumerate(("X", "Y", "Z"))]
+                    t = [bt[i] if (a in unknown and info["target"].get(a) is None) else t[i] for i, a in enumerate(("X", "Y", "Z"))]
                 if any(abs(o[i] - bo[i]) > budget for i in range(3)):
                     problems.append(("hook-origin-wrong", f"{op}: line {block!r}: hook {c[0]} got origin {o}, machine was at {bo}"))
                 if any(abs(t[i] - bt[i]) > budget for i in range(3)):
@@ -191,7 +208,7 @@ class C20System(BuilderSystem):
                         problems.append(("emitted-param-not-from-hooks", f"{op}: line {block!r}: {k} emitted but last hook returned {final}"))
             # extrusion clause (exactly one extrusion hook, and it is the last one to touch E)
             ext = [h for h in st.registered if h.startswith("ext")]
-            if len(ext) == 1 and "E" in info["others"] and "E" not in {k.upper() for k in (op[2] if len(op) > 2 else {})}:
+            if len(ext) == 1 and "E" in info["others"] and not ({"X", "Y"} & getattr(st, "unknown_axes", set())) and "E" not in {k.upper() for k in (op[2] if len(op) > 2 else {})}:
                 length = math.hypot(cur["X"] - before["X"], cur["Y"] - before["Y"])
                 amount = k_of(ext[0]) * length
                 want = amount if st.e_mode == "relative" else st.e_last + amount
@@ -236,7 +253,10 @@ ASSUMPTIONS = ["no transform active", "extrusion clause checked when exactly one
 
 
 def systems(tier):
-    return [("hooks", C20System(), 4 if tier == "quick" else 5, None)]
+    unknown = C20System()
+    unknown.unknown_start = True
+    return [("hooks", C20System(), 4 if tier == "quick" else 5, None),
+            ("hooks-unknown-position", unknown, 3 if tier == "quick" else 4, None)]
 
 
 def run(tier, seed):
